@@ -866,6 +866,8 @@ def value_attr(ex, obj, name):
         if name == 'device':
             return I.CPU
         if name == 'is_cuda':
+            if obj.lib == 'numpy':
+                raise PyRaise('AttributeError', "'numpy.ndarray' object has no attribute 'is_cuda'", origin='python-misuse')
             return False
         if name == 'T':
             if obj.ndim != 2:
@@ -926,6 +928,8 @@ def value_attr(ex, obj, name):
     if isinstance(obj, I.DType):
         if name == 'is_complex':
             return obj in T.COMPLEX
+        if name == 'is_floating_point':
+            return obj in T.FLOATS
     if isinstance(obj, (str, I.Opaque)):
         if not hasattr(str, name):
             raise PyRaise('AttributeError', "'str' object has no attribute '%s'" % name, origin='python-misuse')
@@ -1353,6 +1357,8 @@ def tensor_method(ex, t, name, args, kwargs):
         return _topk(ex, t, args, kwargs)
     if name == 'conj':
         return T.conj(t)
+    if name in ('is_floating_point', 'is_complex') and t.lib == 'numpy':
+        raise PyRaise('AttributeError', "'numpy.ndarray' object has no attribute '%s'" % name, origin='python-misuse')
     if name == 'is_floating_point':
         return t.dtype in T.FLOATS
     if name == 'is_complex':
@@ -1552,8 +1558,12 @@ def _as_tensor(ex, a, k):
     k.pop('device', None)
     dtype = _dtype_kw(k)
     data = a[0]
-    if len(a) > 1 and isinstance(a[1], I.DType):
-        dtype = str(a[1])
+    if len(a) > 1:
+        raise PyRaise('TypeError', 'as_tensor() takes 1 positional argument but %d were given' % len(a), origin='torch')
+    if isinstance(data, STensor) and data.lib == 'numpy' and (dtype is None or dtype == data.dtype):
+        out = STensor(list(data.axes), data.dtype, data._val, ival=data.ival, contiguous=data.contiguous)    # torch.from_numpy: shares the memory
+        out.ghost = dict(data.ghost)
+        return T.derive(out, data, differentiable=False, view_of=data)
     if isinstance(data, STensor):
         return T.to_dtype(data, dtype) if data.lib != 'numpy' else _tensor(ex, [data], {'dtype': I.DType(dtype)} if dtype else {})
     return _tensor(ex, [data], {'dtype': I.DType(dtype)} if dtype else {})
@@ -2253,10 +2263,12 @@ def _math_sqrt(ex, a, k):
 def _lu_factor(ex, a, k):
     """assumed contract: LU (m x n, same dtype) and pivots (int32, length min(m, n), 1-based row numbers)"""
     A = a[0]
+    if isinstance(A, STensor) and A.ndim > 2:
+        raise OutOfSubset('batched lu_factor')
     if not isinstance(A, STensor) or A.ndim != 2:
         raise PyRaise('RuntimeError', 'linalg.lu_factor: expected a matrix', origin='torch')
     if A.dtype not in T.FLOATS + T.COMPLEX:
-        raise PyRaise('RuntimeError', 'linalg.lu_factor: expected a floating point or complex tensor', origin='torch')
+        raise PyRaise('NotImplementedError', '"lu_cpu" not implemented for this dtype', origin='torch')
     m, n = A.shape
     LU = T.opaque_with_axes(list(A.axes), A.dtype, 'LU')
     LU._val = None
@@ -2276,7 +2288,7 @@ def _lu_unpack(ex, a, k):
     m, n = LU.shape
     kk = _min_size(ex, m, n)
     if not T.known_eq(piv.shape[0], kk):
-        require(to_int(piv.shape[0]) == to_int(kk), 'RuntimeError', 'lu_unpack: pivots have the wrong length')
+        require(to_int(piv.shape[0]) == to_int(kk), 'ValueError', 'lu_unpack: pivots have the wrong length')
     P = T.opaque_with_axes([LU.axes[0], T.Axis(m)], LU.dtype, 'P')
     P._val = None
     P.ghost['perm'] = True
@@ -2292,6 +2304,8 @@ def _lu_unpack(ex, a, k):
 def _topk(ex, t, args, kwargs):
     """assumed contract (1-D input, k <= length): values (k) and int64 positions in [0, length)"""
     kk = int_expr(args[0] if args else kwargs.get('k'))
+    if t.dtype in T.COMPLEX:
+        raise PyRaise('RuntimeError', 'topk does not support complex dtypes on CPU', origin='torch')
     if t.ndim != 1 or is_sym(kk):
         raise OutOfSubset('topk of a non 1-D tensor / symbolic k')
     n = t.shape[0]
@@ -2320,7 +2334,9 @@ def _sort(ex, a, k):
 @ext('torch.outer')
 def _outer(ex, a, k):
     x, y = a[0], a[1]
-    if not (isinstance(x, STensor) and isinstance(y, STensor)) or x.ndim != 1 or y.ndim != 1:
+    if not (isinstance(x, STensor) and isinstance(y, STensor)):
+        raise PyRaise('TypeError', 'outer(): arguments must be Tensors', origin='torch')
+    if x.ndim != 1 or y.ndim != 1:
         raise PyRaise('RuntimeError', 'outer: expected 1D tensors', origin='torch')
     return T.contract([x, y], [['i'], ['j']], ['i', 'j'], contiguous=True)
 
@@ -2330,6 +2346,8 @@ def _unravel_index(ex, a, k):
     """assumed contract of numpy.unravel_index(v, shape) (C order): every entry of v must lie in [0, prod(shape)) (ValueError
     otherwise); returns one integer array per dimension with v = sum_k r_k * stride_k and 0 <= r_k < shape[k]"""
     v, shape = a[0], a[1]
+    if isinstance(v, float) or (isinstance(v, SymScalar) and v.kind != 'int') or (isinstance(v, STensor) and v.dtype not in T.INTS):
+        raise PyRaise('TypeError', 'only int indices permitted', origin='numpy')
     if isinstance(shape, I.SSize):
         shape = list(shape.sizes) if hasattr(shape, 'sizes') else list(iterate(ex, shape))
     shape = [int_expr(x) for x in (iterate(ex, shape) if not isinstance(shape, (list, tuple)) else shape)]
@@ -2383,29 +2401,36 @@ def _unravel_index(ex, a, k):
     return tuple(SymScalar(r, 'int', 'np.int64') for r in rs)
 
 
-def _np_stack(axis):
+def _np_stack(axis, lib):
     def f(ex, a, k):
         seq = list(iterate(ex, a[0]))
         ts = []
         for x in seq:
             if not isinstance(x, STensor):
                 raise OutOfSubset('stacking of non-arrays')
+            if x.ndim == 0:
+                x = T.reshape(x, [1])            # atleast_1d
             if x.ndim == 1:
-                x = T.unsqueeze(x, 0) if axis == 0 else x
+                x = T.unsqueeze(x, 0) if axis == 0 else x      # vstack: atleast_2d
             ts.append(x)
-        if axis == 1 and all(t.ndim == 1 for t in ts):
-            out = T.cat(ts, 0)
-        else:
-            out = T.cat(ts, axis)
-        out.lib = 'numpy'
+        try:
+            if axis == 1 and ts and ts[0].ndim == 1:
+                out = T.cat(ts, 0)               # hstack concatenates along axis 0 when the first operand is 1-D
+            else:
+                out = T.cat(ts, axis)
+        except PyRaise as e:
+            if lib == 'numpy' and e.cls in ('RuntimeError', 'IndexError'):
+                raise PyRaise('ValueError', e.msg, origin='numpy')
+            raise
+        out.lib = lib
         return out
     return f
 
 
-EXT['numpy.vstack'] = _np_stack(0)
-EXT['numpy.hstack'] = _np_stack(1)
-EXT['torch.vstack'] = _np_stack(0)
-EXT['torch.hstack'] = _np_stack(1)
+EXT['numpy.vstack'] = _np_stack(0, 'numpy')
+EXT['numpy.hstack'] = _np_stack(1, 'numpy')
+EXT['torch.vstack'] = _np_stack(0, 'torch')
+EXT['torch.hstack'] = _np_stack(1, 'torch')
 
 
 class NPFinfo(object):
@@ -2417,6 +2442,7 @@ class NPFinfo(object):
 
     def __init__(self, dtype):
         self.eps, self.tiny, self.max = self._E[dtype]
+        self.resolution = 1e-15 if dtype in ('float64', 'complex128') else 1e-6
         self.min = -self.max
         self.dtype = dtype
 
@@ -2424,10 +2450,18 @@ class NPFinfo(object):
 @ext('numpy.finfo', 'torch.finfo')
 def _finfo(ex, a, k):
     d = a[0] if a else k.get('dtype', k.get('type'))
+    if d is None:
+        d = T.DEFAULT_FLOAT
     if isinstance(d, STensor):
         d = d.dtype
+    if isinstance(d, I.Ext) and d.name.startswith('numpy.'):
+        d = d.name.split('.', 1)[1]
     d = str(d)
     if d not in NPFinfo._E:
+        if d == 'float16':
+            raise OutOfSubset('finfo(float16)')
+        if isinstance(a[0] if a else None, I.DType):
+            raise PyRaise('TypeError', 'torch.finfo() requires a floating point input type', origin='torch')
         raise PyRaise('ValueError', 'data type %r not inexact' % d, origin='numpy')
     return NPFinfo(d)
 
@@ -2437,7 +2471,7 @@ _va_fin = value_attr
 
 def value_attr(ex, obj, name):   # noqa: F811
     if isinstance(obj, NPFinfo):
-        if name in ('eps', 'tiny', 'max', 'min', 'smallest_normal'):
+        if name in ('eps', 'tiny', 'max', 'min', 'smallest_normal', 'resolution'):
             return getattr(obj, 'tiny' if name == 'smallest_normal' else name)
         raise PyRaise('AttributeError', "'finfo' object has no attribute %r" % name)
     return _va_fin(ex, obj, name)
